@@ -1,12 +1,12 @@
 package checks
 
 import (
-	"os"
-	"verif/vsync"
 	"encoding/json"
 	"fmt"
+	"os"
 	"sort"
 	"strings"
+	"verif/vsync"
 
 	"github.com/syndtr/goleveldb/leveldb"
 	"github.com/syndtr/goleveldb/leveldb/storage"
@@ -37,8 +37,8 @@ type faultSpec struct {
 type faultTask struct {
 	Cfg    string      `json:"cfg"`
 	Ops    []string    `json:"ops"`
-	Faults []faultSpec `json:"faults"` // empty: baseline (returns the position census)
-	Probe  bool        `json:"probe"`  // C09: run the liveness probe suite after the history
+	Faults []faultSpec `json:"faults"`          // empty: baseline (returns the position census)
+	Probe  bool        `json:"probe"`           // C09: run the liveness probe suite after the history
 	Where  bool        `json:"where,omitempty"` // record call sites of blocked goroutines (diagnostic re-run)
 }
 
